@@ -2,11 +2,19 @@
 from . import common as C, gen_chacha as G
 
 LEAN_MODULE = "Urandom.Props.C02"
-DISAGREEMENT_IS_FAILING_INPUT = True  # the row-wise model is proved equal to Bernstein's block function: impl != model ==> impl block != spec block
+
+
+def disagreement_is_failing(req, impl, model):
+    """A raw batch (portable back end through the hook) is exactly what the property fixes: the row-wise model is proved equal to Bernstein's
+    block function, so impl != model there means impl block != specification block.  For the buffered generator (the only way to reach the
+    SSE2 / AVX2 back ends) the property fixes that every byte is keystream of consecutive counters, not how the buffer hands it out or how the
+    state is serialised: judged by the keystream attribution in `extra`."""
+    return req.startswith("slpblock")
+
 RULE = ("requests: (key, counter, stream, rounds) with keys {0, !0, single bit, random}, counters at 0..4, 2^32-5..2^32+1, 2^64-8..2^64-1 and random, "
         "stream ids {0,1,2^32-1,2^32,2^64-1,random}, rounds 8/12/20; two successive batches read through fill_bytes(256), 128 x next_u32 and mixed shapes; "
         "the portable back end through the verif hook (one raw batch + counter afterwards); from_seed for edge seeds. Builds: SSE2 (default) and AVX2 (-C target-feature=+avx2); "
-        "thorough: also release. non-trivial = all; distinct = distinct request line")
+        "thorough: also release. extra: every returned byte attributed to the specification keystream (model-free). non-trivial = all; distinct = distinct request line")
 TRUSTED = ["the SSE2/AVX2 intrinsics are observed, not modelled instruction by instruction: the model is the row-wise algorithm they implement"]
 ASSUMPTIONS = ["x86_64 with SSE2/AVX2 available on the sandbox CPU"]
 
@@ -31,3 +39,15 @@ def corpus(build):
 
 def classify(req, model):
     return req.split()[0] + "/" + req.split()[1]
+
+
+def extra(binary, build, tier, rng):
+    """every byte the buffered generator returns on this back end is located in the SPECIFICATION keystream (Bernstein's block function,
+    computed by the driver's `specblock`) of its stream around its counter - batches at the 2^32 / 2^64 counter boundaries included"""
+    from .ks_oracle import run_oracle
+    reqs = [q for q in corpus(build) if q.startswith("chacha")] + G.batch_requests(rng, 120 if tier == "quick" else 2500) + G.seed_requests(rng, 40 if tier == "quick" else 800)
+    rc, impls, err = C.run_lines(binary, ["run"], reqs)
+    for item in run_oracle(binary, reqs, impls):
+        if item.get("kind") == "oracle":
+            item["build"] = build
+        yield item
